@@ -38,7 +38,32 @@ def _load(prop: str):
     return importlib.import_module(f"checks.{prop.lower()}")
 
 
+_COV = None
+
+
+def _cov_start():
+    """Optional line coverage of werkzeug under a check (space audit, see tools/cov_audit.sh)."""
+    global _COV
+    d = os.environ.get("MC_COVERAGE")
+    if d and _COV is None:
+        import coverage
+
+        src = os.environ.get("MC_REPO_SRC", "/repo/src")
+        _COV = coverage.Coverage(data_file=os.path.join(d, f"cov.{os.getpid()}"), include=[src + "/werkzeug/*"],
+                                 branch=True)
+        _COV.start()
+
+
 def _work(i: int) -> dict:
+    _cov_start()
+    try:
+        return _work1(i)
+    finally:
+        if _COV is not None:
+            _COV.save()
+
+
+def _work1(i: int) -> dict:
     mod = _MOD
     classify = core.make_classifier(mod.ID, getattr(mod, "FINDINGS", {}))
     R = core.Recorder(classify)
